@@ -25,6 +25,8 @@ type GenOpts struct {
 	TypedefArgs  bool // every file gets typedefs of every shape and function signatures prefer them (C19)
 	Hostile      bool // draw identifiers and file names from the hostile pool (Go keywords, initialisms, generated-method names, std package names)
 	BackEdges    bool // cyclic includes: later files include earlier ones and typedef their types (compile-only properties)
+	TypeAnnots   bool // annotations with arbitrary keys on typedefs, structs, unions, exceptions, enums and on base / container type expressions (string (validate.format = "hex"), set<string> (go.type = "slice", owner = "x")): the TYPE of a field then has annotations of its own (C15)
+	SameBaseRuns bool // one program in two with >= 3 files gives three or four of its files, neighbours included, one base name in different directories; services prefer parents in same-named files (C19)
 	// Avoid lists defect classes the generator must not produce (known,
 	// unrepaired defects excluded by construction; each exclusion is counted
 	// by the caller through Excluded).
@@ -80,6 +82,7 @@ type gctx struct {
 	negIDsOK      bool     // negative field ids may be drawn (inside genStruct)
 	clusterName   string   // a type name every file of the program defines (name clusters)
 	enumItemNames []string // Go constant names of generated enum items (hostile collisions)
+	sameBaseRun   bool     // the program has a run of same-named files (SameBaseRuns)
 }
 
 func (g *gctx) label(s string) string { g.n++; return fmt.Sprintf("%s%d", s, g.n) }
@@ -145,7 +148,35 @@ func GenProgram(t *rapid.T, o *GenOpts) *Program {
 	used := map[string]bool{}
 	var files []*File
 	prevStem := ""
+	// a run of same-named files: a/types.thrift, b/types.thrift, c/types.thrift ... A file may
+	// include a file of its own base name (the include is visible under that name)
+	forced := map[int][2]string{}
+	if o.SameBaseRuns && nf >= 3 && g.chance(1, 2, "samebase_run") {
+		k := nf
+		if k > len(dirs) {
+			k = len(dirs)
+		}
+		k = g.intn(3, k, "samebase_k")
+		stem := pickStr(g, fileStems, "samebase_stem")
+		idx := make([]int, nf)
+		for i := range idx {
+			idx[i] = i
+		}
+		idx = rapid.Permutation(idx).Draw(g.t, "samebase_files")
+		dperm := rapid.Permutation(dirs).Draw(g.t, "samebase_dirs")
+		for n := 0; n < k; n++ {
+			forced[idx[n]] = [2]string{dperm[n], stem}
+			used[dperm[n]+stem] = true
+		}
+		used["stem:"+stem] = true
+		g.sameBaseRun = true
+	}
 	for i := 0; i < nf; i++ {
+		if fs, ok := forced[i]; ok {
+			prevStem = fs[1]
+			files = append(files, &File{Path: fs[0] + fs[1] + ".thrift"})
+			continue
+		}
 		stem := pickStr(g, fileStems, "fstem")
 		dir := pickStr(g, dirs, "fdir")
 		// the same base name may live in different directories (two files including both is
@@ -175,6 +206,9 @@ func GenProgram(t *rapid.T, o *GenOpts) *Program {
 		g.file = f
 		g.pool = nil
 		incNames := map[string]bool{IncludeName(f.Path): true}
+		if g.sameBaseRun {
+			incNames = map[string]bool{}
+		}
 		for j := i + 1; j < nf; j++ {
 			if j == i+1 || g.chance(1, 2, "inc") {
 				if incNames[IncludeName(files[j].Path)] {
@@ -575,6 +609,7 @@ func (g *gctx) genEnum() *Def {
 		}
 		d.Items = append(d.Items, it)
 	}
+	d.Annots = g.foreignAnnots(d.Annots, 4)
 	return d
 }
 
@@ -585,19 +620,19 @@ func (g *gctx) genType(depth int, allowStruct bool) *Type {
 	mode := g.intn(0, 9, "tmode")
 	switch {
 	case mode <= 3 || depth <= 0 && mode <= 6:
-		return &Type{K: pickStr(g, baseKinds, "base")}
+		return g.typeAnnots(&Type{K: pickStr(g, baseKinds, "base")}, 5)
 	case mode <= 6 && depth > 0:
 		switch g.intn(0, 2, "ckind") {
 		case 0:
-			return &Type{K: TList, Elem: g.genType(depth-1, allowStruct)}
+			return g.typeAnnots(&Type{K: TList, Elem: g.genType(depth-1, allowStruct)}, 4)
 		case 1:
 			t := &Type{K: TSet, Elem: g.genType(depth-1, allowStruct)}
 			if g.o.Annotations && g.chance(1, 4, "slice") {
 				t.Annots = map[string]string{"go.type": "slice"}
 			}
-			return t
+			return g.typeAnnots(t, 4)
 		default:
-			return &Type{K: TMap, Key: g.genType(depth-1, allowStruct), Val: g.genType(depth-1, allowStruct)}
+			return g.typeAnnots(&Type{K: TMap, Key: g.genType(depth-1, allowStruct), Val: g.genType(depth-1, allowStruct)}, 4)
 		}
 	default:
 		var cands []*Def
@@ -621,7 +656,33 @@ func (g *gctx) genType(depth int, allowStruct bool) *Type {
 
 func (g *gctx) genTypedef() *Def {
 	d := &Def{Kind: DTypedef, Name: g.newTypeName(), Target: g.genType(2, true)}
+	d.Annots = g.foreignAnnots(d.Annots, 3)
 	return d
+}
+
+// foreignKeys are annotation keys thriftrw gives no meaning to.
+var foreignKeys = []string{"validate.format", "validate.max", "owner", "py.immutable", "cpp.type", "java.swift.mutable", "x", "deprecated", "pii"}
+var foreignVals = []string{"hex", "10", "", "team-a", "std::string", "true", "\x00", "\x00", "with \"quotes\""}
+
+// foreignAnnots adds, one time in den when TypeAnnots is set, one or two annotations of other
+// tools to a.
+func (g *gctx) foreignAnnots(a map[string]string, den int) map[string]string {
+	if !g.o.TypeAnnots || !g.chance(1, den, "foreign_annots") {
+		return a
+	}
+	if a == nil {
+		a = map[string]string{}
+	}
+	for i, n := 0, g.intn(1, 2, "foreign_n"); i < n; i++ {
+		a[foreignKeys[g.intn(0, len(foreignKeys)-1, "foreign_k")]] = foreignVals[g.intn(0, len(foreignVals)-1, "foreign_v")]
+	}
+	return a
+}
+
+// typeAnnots puts foreign annotations on a base or container type expression.
+func (g *gctx) typeAnnots(t *Type, den int) *Type {
+	t.Annots = g.foreignAnnots(t.Annots, den)
+	return t
 }
 
 // structOnlyStems are legal in structs and unions but reserved in exceptions (Error, ErrorName methods).
@@ -734,6 +795,7 @@ func (g *gctx) genStruct() *Def {
 		}
 		d.Fields = append(d.Fields, f)
 	}
+	d.Annots = g.foreignAnnots(d.Annots, 4)
 	return d
 }
 
@@ -1105,6 +1167,20 @@ func (g *gctx) genService() *Def {
 	if len(parents) > 0 && g.chance(1, 2, "extends") {
 		par := parents[g.intn(0, len(parents)-1, "parent")]
 		d.Parent = &Ref{File: par.File, Name: par.Name}
+	}
+	if g.sameBaseRun {
+		// chains of services across same-named files: a request for one file then carries
+		// ancestors (and their types) from several packages of one base name
+		var twins []*Def
+		for _, s := range parents {
+			if s.File != g.file.Path && IncludeName(s.File) == IncludeName(g.file.Path) {
+				twins = append(twins, s)
+			}
+		}
+		if len(twins) > 0 && g.chance(2, 3, "extends_twin") {
+			par := twins[g.intn(0, len(twins)-1, "parent_twin")]
+			d.Parent = &Ref{File: par.File, Name: par.Name}
+		}
 	}
 	usedFn := map[string]bool{}
 	for i, n := 0, g.intn(0, 4, "nfuncs"); i < n; i++ {
